@@ -10,7 +10,7 @@ RULE = ("K (float32): (a) setup defaults: EnergyThresholdCondition().setup min_s
         "(thorough 4000) vs the model's half-to-even T/10; rejected set-ups (threshold <= 0 / < 0, prev_periods < 1, window "
         "longer than T, min_steps below the window) vs the model's error kinds. (b) per generated tiny scene (4-6 cells per "
         "axis, PML or periodic faces, T 16-30, dipole source, volume-reduced Field or Energy detector): a plain run is "
-        "executed step by step; its energy trace E(0..T) and detector readings are the model's input. For 12 (thorough 40) (threshold, "
+        "executed step by step; its energy trace E(0..T) and detector readings are the model's input. For 10 (thorough 40) (threshold, "
         "min_steps, max_steps) triples per condition kind - thresholds taken from the gaps of the run's own energy / "
         "spectra-distance values so that every halt reason occurs (threshold, min_steps wait, max_steps, T, never), min/max "
         "in {None, 0, random, > T}, max < min - the implementation's own `__call__` is evaluated on every state of the plain "
@@ -319,7 +319,7 @@ def run(ctx):
     for i in range(n_scenes):
         sc = gen_scene(ctx.rng.fork(), i + ctx.seed)
         P = Plain(sc)
-        n_cheap, n_full = ctx.scale(12, 40), ctx.scale(4, 8)
+        n_cheap, n_full = ctx.scale(10, 40), ctx.scale(3, 8)
         k_spec(ctx, P, {"type": "time"}, i == 0, idx)
         for kind, gen in (("energy", gen_energy_specs), ("det", gen_det_specs)):
             specs = gen(ctx.rng, P, n_cheap)
